@@ -494,6 +494,10 @@ let ddiag_str = function
   | Declared.InvalidDesignatorError -> "InvalidDesignatorError"
 let handle_semw fields =
   match fields with
+  | ["sig"; input; orc] ->
+    (* signatures and the gate listing: decided on the implementation by the harness *)
+    count_case input true;
+    if orc <> "ok" then oracle_fail "semw" input orc
   | [kind; form; c; impl; orc] ->
     let input = kind ^ " | " ^ form ^ " | " ^ c in
     count_case input (form <> "none"); sample "semw" input impl;
